@@ -100,6 +100,7 @@ class Program:
                 mi.imports[a.asname or a.name] = f"{modname}.{a.name}"
         elif isinstance(n, ast.ClassDef):
             ci = ClassInfo(mi, n)
+            ci.prog = self
             mi.classes[n.name] = ci
             self.classes.append(ci)
         elif isinstance(n, ast.FunctionDef):
